@@ -698,6 +698,80 @@ func c27gen(c *Ctx, s *c27st) {
 	}
 }
 
+// SpendAccountChain (build-chain-transactions): many small BTM outputs are merged by a chain of
+// transactions before the final spend. Direct oracle only (its arithmetic is not in the model):
+// every merge template and the final template must sign and validate, each merge output is the
+// sum of its inputs minus ChainTxMergeGas, and the final transaction pays the recipient exactly.
+func c27chain(c *Ctx, s *c27st, seed int64) {
+	r := rand.New(rand.NewSource(seed))
+	s.reset()
+	n := 2 + r.Intn(28)
+	var total uint64
+	for i := 1; i <= n; i++ {
+		amt := uint64(5+r.Intn(200)) * 10000000
+		total += amt
+		u := s.utxo([]uint64{uint64(i), 0, amt + uint64(i), 1, 0, 0, 0, 1})
+		data, _ := json.Marshal(u)
+		s.db.Set(account.StandardUTXOKey(u.OutputID), data)
+	}
+	pay := total / uint64(2+r.Intn(3))
+	fee := uint64(20000000)
+	js := fmt.Sprintf(`{"type":"spend_account","account_id":%q,"asset_id":%q,"amount":%d}`, s.env.accts[1].ID, s.env.assets[0].String(), pay+fee)
+	act, err := s.am.DecodeSpendAction([]byte(js))
+	if err != nil {
+		panic(err)
+	}
+	ctx := context.Background()
+	b := txbuilder.NewBuilder(time.Unix(1000, 0))
+	tpls, err := account.SpendAccountChain(ctx, b, act)
+	if err != nil {
+		c.Count("chain/error:" + c27errClass(err))
+		b.Rollback()
+		return
+	}
+	if err := b.AddOutput(types.NewOriginalTxOutput(s.env.assets[0], pay, s.env.progs[5].ControlProgram, nil)); err != nil {
+		panic(err)
+	}
+	last, _, err := b.Build()
+	if err != nil {
+		capFail(c, "SpendAccountChain: final template does not build", err.Error())
+		return
+	}
+	all := append(append([]*txbuilder.Template{}, tpls...), last)
+	for i, tpl := range all {
+		for k := 0; k < 3 && !txbuilder.SignProgress(tpl); k++ {
+			if err := txbuilder.Sign(ctx, tpl, "", s.sign); err != nil {
+				capFail(c, "SpendAccountChain: Sign fails", err.Error())
+			}
+		}
+		tx := tpl.Transaction
+		data, _ := tx.TxData.MarshalText()
+		tx.TxData.SerializedSize = uint64(len(data) / 2)
+		tx.Tx.SerializedSize = uint64(len(data) / 2)
+		blk := &bc.Block{BlockHeader: &bc.BlockHeader{Version: 1, Height: 1, Timestamp: 1}}
+		if _, verr := validation.ValidateTx(tx.Tx, blk, func(prog []byte) ([]byte, error) { return nil, nil }); verr != nil {
+			capFail(c, "SpendAccountChain: a transaction of the chain fails validation: "+verr.Error(), fmt.Sprintf("%d utxos, pay %d, tx %d of %d", n, pay, i+1, len(all)))
+		}
+		var in, out uint64
+		for _, x := range tx.Inputs {
+			in += x.Amount()
+		}
+		for _, o := range tx.Outputs {
+			out += o.Amount
+		}
+		if i < len(all)-1 {
+			if len(tx.Outputs) != 1 || in-out != txbuilder.ChainTxMergeGas || len(tx.Inputs) > txbuilder.ChainTxUtxoNum {
+				capFail(c, "SpendAccountChain: a merge transaction is not (<=5 inputs -> 1 output, fee = ChainTxMergeGas)", fmt.Sprintf("in %d out %d inputs %d", in, out, len(tx.Inputs)))
+			}
+		} else {
+			if tx.Outputs[len(tx.Outputs)-1].Amount != pay || in-out != fee {
+				capFail(c, "SpendAccountChain: final transaction does not pay the recipient / fee as requested", fmt.Sprintf("in %d out %d pay %d", in, out, pay))
+			}
+		}
+	}
+	c.Count(fmt.Sprintf("chain/ok/%d-merge-txs", len(tpls)))
+}
+
 func runC27(c *Ctx) {
 	c.Rule = "per case 6-15 wallet UTXOs (BTM and two other assets, distinct amounts, two accounts: single key and 2-of-3, some unconfirmed, some both confirmed and unconfirmed, some immature) and 2-5 build requests, each a shuffled list of 1-3 control_address/control_program/retire actions and the spend_account actions that fund them (sometimes split over two spend actions / two accounts, sometimes off by a few units, sometimes amount 0); successful templates of balanced requests are signed and validated; a case is distinct by its op line"
 	env := newC27env()
@@ -713,6 +787,13 @@ func runC27(c *Ctx) {
 	}
 	for i := 0; i < c.N; i++ {
 		c27gen(c, s)
+	}
+	chains := 60
+	if c.Tier == "thorough" {
+		chains = 1500
+	}
+	for i := 0; i < chains; i++ {
+		c27chain(c, s, c.Seed*100000+int64(i))
 	}
 }
 
